@@ -6,6 +6,7 @@ from coqrun import ni, pb
 from gen import pyref, txgen, txprobe
 from gen.util import SECP_N, lib_vs_model, short
 
+DRIVERS = ['C06', 'C05']
 NEEDS = dict(cli=True, harness=True, shim=False, release=True)
 RULE = ("generated transactions of the three kinds: every numeric field from {0,1,0x7f,0x80,0xff,0x100,2^64-1,2^64,2^255,2^256-1} "
         "and random widths 1..32 bytes, recipient present/absent/null, calldata lengths {0,1,55,56,57,255,256,1100,...}, access "
